@@ -142,8 +142,8 @@ def obligations(tier):
     #      whose per-lane 16-bit counters only go wrong beyond 8 * 32768 levels - far outside the unrolled counts above)
     from e2 import E2
     for pat, pn in ((0, 'all-non-null'), (1, 'one-lane')) if quick else ((0, 'all-non-null'), (1, 'one-lane'), (2, 'alternating')):
-        for nn, nt in ((8 * 32769 + 3, '262155'),) if quick else ((8 * 32769 + 3, '262155'), (8 * 65537 + 5, '524301')):
-            if pat == 2 and nt != '262155': continue
+        for nn, nt in ((8 * 32769 + 3, '262155'), (8 * 65537 + 5, '524301')):      # beyond 32768 and beyond 65536 matches per 16-bit lane
+            if (pat == 2 or (quick and pat == 1)) and nt != '262155': continue
             o.append(E2('count_non_nulls/sse/scale/n%s/%s' % (nt, pn), 'harness/e2/c15_scale.c', ['src/simd/x86/sse_ops.c'], ['-DN=%d' % nn, '-DPATTERN=%d' % pat],
                         timeout=800, max_steps=400_000_000, max_paths=100, validate=2,
                         bounds='%s int16 levels, concrete pattern "%s" except 4 symbolic levels (first, around the 8*32768-th, last); max_def_level 3; result == scalar definition' % (nt, pn),
